@@ -58,6 +58,15 @@ func safe(f func() sdkmath.Int) (v sdkmath.Int, ok bool) {
 	return f(), true
 }
 
+// dbl doubles a value, saturating inside the sdkmath.Int range
+func dbl(v sdkmath.Int) sdkmath.Int {
+	w, ok := safe(func() sdkmath.Int { return v.MulRaw(2) })
+	if !ok {
+		return v
+	}
+	return w
+}
+
 func pow2(b int) sdkmath.Int { return sdkmath.NewIntFromBigInt(new(big.Int).Lsh(big.NewInt(1), uint(b))) }
 
 // amt draws an amount: small, a fraction of a hint, exactly a hint +-1, or a large magnitude.
@@ -129,7 +138,7 @@ func (r *R) amt0(g *hx.Rng, hints ...sdkmath.Int) sdkmath.Int {
 
 // near returns v, v+1 or v-1 (never negative), or one of the fallbacks.
 func near(g *hx.Rng, v sdkmath.Int, fallbacks ...sdkmath.Int) sdkmath.Int {
-	switch g.Pick(5, 1, 2, 4) {
+	switch g.Pick(6, 1, 2, 4) {
 	case 0:
 		return v
 	case 1:
@@ -224,7 +233,7 @@ func (r *R) genSwap(ctx sdk.Context, g *hx.Rng, v view) string {
 			sender = r.holder(ctx, g, inD)
 			dx := r.amtCap(g, r.bal(ctx, sender, inD), X, r.bal(ctx, sender, inD))
 			q, _ := safe(func() sdkmath.Int { return cskeeper.GetInputPrice(dx, X, Y, v.fee) })
-			min := near(g, q, sdkmath.OneInt(), sdkmath.OneInt(), big1)
+			min := near(g, q, sdkmath.OneInt(), sdkmath.OneInt(), sdkmath.OneInt(), sdkmath.OneInt(), sdkmath.OneInt(), big1)
 			if min.IsZero() && g.Chance(4, 5) {
 				min = sdkmath.OneInt()
 			}
@@ -233,7 +242,7 @@ func (r *R) genSwap(ctx sdk.Context, g *hx.Rng, v view) string {
 		sender = r.holder(ctx, g, inD)
 		dy := r.amtCap(g, Y.SubRaw(1), Y, Y.QuoRaw(20), Y.QuoRaw(3))
 		q, _ := safe(func() sdkmath.Int { return cskeeper.GetOutputPrice(dy, X, Y, v.fee) })
-		max := near(g, q, r.bal(ctx, sender, inD), big1, big1)
+		max := near(g, q, r.bal(ctx, sender, inD), big1, big1, big1, dbl(q))
 		if !max.IsPositive() && g.Chance(4, 5) {
 			max = sdkmath.OneInt()
 		}
@@ -247,7 +256,7 @@ func (r *R) genSwap(ctx sdk.Context, g *hx.Rng, v view) string {
 			dx := r.amtCap(g, r.bal(ctx, sender, pa.cp), pa.Y, r.bal(ctx, sender, pa.cp))
 			q1, _ := safe(func() sdkmath.Int { return cskeeper.GetInputPrice(dx, pa.Y, pa.X, v.fee) })
 			q2, _ := safe(func() sdkmath.Int { return cskeeper.GetInputPrice(q1, pb.X, pb.Y, v.fee) })
-			min := near(g, q2, sdkmath.OneInt(), sdkmath.OneInt(), big1)
+			min := near(g, q2, sdkmath.OneInt(), sdkmath.OneInt(), sdkmath.OneInt(), sdkmath.OneInt(), sdkmath.OneInt(), big1)
 			if min.IsZero() && g.Chance(4, 5) {
 				min = sdkmath.OneInt()
 			}
@@ -257,7 +266,7 @@ func (r *R) genSwap(ctx sdk.Context, g *hx.Rng, v view) string {
 		dy := r.amtCap(g, pb.Y.SubRaw(1), pb.Y, pb.Y.QuoRaw(20), pb.Y.QuoRaw(3))
 		s1, _ := safe(func() sdkmath.Int { return cskeeper.GetOutputPrice(dy, pb.X, pb.Y, v.fee) })
 		s2, _ := safe(func() sdkmath.Int { return cskeeper.GetOutputPrice(s1, pa.Y, pa.X, v.fee) })
-		max := near(g, s2, r.bal(ctx, sender, pa.cp), big1, big1)
+		max := near(g, s2, r.bal(ctx, sender, pa.cp), big1, big1, big1, dbl(s2))
 		if !max.IsPositive() && g.Chance(4, 5) {
 			max = sdkmath.OneInt()
 		}
@@ -309,13 +318,28 @@ func (r *R) genAdd(ctx sdk.Context, g *hx.Rng, v view) string {
 	}
 	big1 := pow2(200)
 	p := r.findPool(v, cp)
+	if g.Chance(3, 4) { // a sender holding both coins
+		for try := 0; try < 4 && !(r.bal(ctx, sender, cp).IsPositive() && r.bal(ctx, sender, v.std).IsPositive()); try++ {
+			sender = r.acc(g)
+		}
+	}
 	var dS, max, minl sdkmath.Int
 	if p != nil && p.L.IsPositive() && p.X.IsPositive() {
 		dS = r.amtCap(g, r.bal(ctx, sender, v.std), p.X, r.bal(ctx, sender, v.std))
 		mint, _ := safe(func() sdkmath.Int { return p.L.Mul(dS).Quo(p.X) })
 		dep, _ := safe(func() sdkmath.Int { return p.Y.Mul(dS).Quo(p.X).AddRaw(1) })
-		max = near(g, dep, r.bal(ctx, sender, cp), big1, big1)
+		max = near(g, dep, r.bal(ctx, sender, cp), big1, big1, dbl(dep))
 		minl = near(g, mint, sdkmath.ZeroInt(), sdkmath.OneInt(), sdkmath.OneInt())
+		if dep.GT(r.bal(ctx, sender, cp)) && r.bal(ctx, sender, cp).IsPositive() && g.Chance(5, 6) {
+			// scale the standard amount down so that the token deposit is affordable
+			if w, ok := safe(func() sdkmath.Int { return r.bal(ctx, sender, cp).Mul(p.X).Quo(p.Y.AddRaw(1)).MulRaw(g.Range(10, 95)).QuoRaw(100) }); ok && w.IsPositive() && w.LT(dS) {
+				dS = w
+				mint, _ = safe(func() sdkmath.Int { return p.L.Mul(dS).Quo(p.X) })
+				dep, _ = safe(func() sdkmath.Int { return p.Y.Mul(dS).Quo(p.X).AddRaw(1) })
+				max = near(g, dep, r.bal(ctx, sender, cp), big1, dbl(dep))
+				minl = near(g, mint, sdkmath.ZeroInt(), sdkmath.OneInt())
+			}
+		}
 	} else {
 		capS := r.bal(ctx, sender, v.std)
 		if v.pcf.Denom == v.std && p == nil {
@@ -662,7 +686,14 @@ func (r *R) genPrice(g *hx.Rng) string {
 	return "coinswap price_out " + hx.KV("x", x, "y", y, "dy", dy, "fee", fee)
 }
 
-func (r *R) Gen(ctx sdk.Context, g *hx.Rng) string {
+func (r *R) Gen(ctx sdk.Context, g *hx.Rng) (line string) {
+	// amount arithmetic of the generator itself must never abort a run (e.g. on states only a
+	// modified implementation can reach): fall back to a harmless block boundary
+	defer func() {
+		if rec := recover(); rec != nil {
+			line = "coinswap block " + hx.KV("t", ctx.BlockTime().UnixNano()+1000000000)
+		}
+	}()
 	if r.Pure {
 		return r.genPrice(g)
 	}
